@@ -349,6 +349,10 @@ val copy_submodels :
 
 val linker_copy_M : consts -> heap -> loc -> (heap * loc) option
 
+val reindex_cells :
+  heap -> (z * val0) list -> (z * z) list -> z -> nat list -> (heap * val0
+  list) option
+
 val reindex_vars :
   heap -> loc -> loc -> z list -> nat -> (z * z) list -> (z * z) list -> heap
   option
